@@ -375,7 +375,9 @@ SameBytesOK(s, e) ==
     LET cv == cont[s.cid] IN
     \A i \in 1..Len(closed) :
         LET f == closed[i] IN
-        (f.fmt = s.fmt /\ f.ch = s.ch /\ f.rate = s.rate /\ f.val = cv.val /\ f.kt = cv.kt /\ f.meta = <<s.meta, s.wch>>
+        \* (values of different caller types have different shapes -- integers, dyadic pairs, bit pattern pairs -- and TLC refuses to
+        \*  compare those: the sequences are compared through their printed form, after everything cheaper)
+        (f.fmt = s.fmt /\ f.ch = s.ch /\ f.rate = s.rate /\ f.kt = cv.kt /\ f.meta = <<s.meta, s.wch>> /\ ToString(f.val) = ToString(cv.val)
             /\ ~(NameInHeader(s.fmt) /\ (f.route = "path") # (s.route = "path")))
           => (f.dig = e.dig /\ f.flen = e.flen)
 \* and equal to what an earlier scenario (other process, other interleaving, other route) with the same key produced
